@@ -7,7 +7,10 @@ import (
 	"encoding/binary"
 	"fmt"
 	"io"
+	"net"
 	"strings"
+	"sync"
+	"time"
 
 	"github.com/xelaj/mtproto/internal/mode"
 	"github.com/xelaj/mtproto/internal/mtproto/messages"
@@ -90,7 +93,7 @@ type ctx struct{ run *vr.Run }
 func readAll(v mode.Variant, stream []byte, cuts []int, max int) (msgs [][]byte, err error, panicked string) {
 	c, cancel := context.WithCancel(context.Background())
 	defer cancel()
-	conn := transport.VerifNewTCPConnFromReader(c, &segReader{data: stream, cuts: cuts}, io.Discard)
+	conn := segConn(c, &segReader{data: stream, cuts: cuts})
 	p, pm, fr := vr.Try(func() {
 		var m mode.Mode
 		m, err = mode.Detect(conn)
@@ -147,6 +150,10 @@ func main() {
 	if run.Thorough() {
 		N = 19
 	}
+	run.Set("tcpConn_read_path_driven_over_an_in_memory_reader", transport.VerifTCPConnOverReader)
+	if !transport.VerifTCPConnOverReader {
+		N = 9 // every case below is delivered over a loopback socket instead (paced writes)
+	}
 	// ---- write side
 	var lens []int
 	for n := 0; n <= 520; n += 4 {
@@ -181,6 +188,7 @@ func main() {
 	}
 	for _, v := range variants {
 		c.bidirectional(v)
+		c.failedWrites(v)
 	}
 	// ---- read side: all compositions of short streams
 	for _, v := range variants {
@@ -223,7 +231,7 @@ func main() {
 			bounds = append(bounds, len(stream))
 			name := fmt.Sprintf("read %s seq=%v", variantName(v), seq)
 			c.checkRead(name+" all-at-once", "all-at-once", v, want, stream, []int{len(stream)})
-			if len(stream) <= 70000 {
+			if len(stream) <= 70000 && (transport.VerifTCPConnOverReader || len(stream) <= 2000) {
 				ones := make([]int, len(stream))
 				for i := range ones {
 					ones[i] = 1
@@ -239,7 +247,7 @@ func main() {
 				}
 			}
 			step := 1
-			if len(stream) > 5000 {
+			if len(stream) > 5000 || !transport.VerifTCPConnOverReader {
 				step = 0 // only cuts near boundaries for very long streams
 			}
 			for i := 1; i < len(stream); i++ {
@@ -253,7 +261,7 @@ func main() {
 			}
 			for _, i := range nl {
 				for _, j := range nl {
-					if i < j {
+					if i < j && (transport.VerifTCPConnOverReader || j-i <= 2) {
 						c.checkRead(fmt.Sprintf("%s cuts=%d,%d", name, i, j), "two-cuts-near-boundary", v, want, stream, []int{i, j - i, len(stream) - j})
 					}
 				}
@@ -288,7 +296,7 @@ func main() {
 	// ---- mode detection
 	for b := 0; b < 256; b++ {
 		stream := []byte{byte(b), byte(b), byte(b), byte(b), 0, 0, 0, 0}
-		cconn := transport.VerifNewTCPConnFromReader(context.Background(), &segReader{data: stream}, io.Discard)
+		cconn := segConn(context.Background(), &segReader{data: stream})
 		var m mode.Mode
 		var err error
 		p, pm, _ := vr.Try(func() { m, err = mode.Detect(cconn) })
@@ -306,7 +314,7 @@ func main() {
 		}
 	}
 	for _, bad := range [][]byte{{0xee, 0xee, 0xee, 0xef}, {0xee, 0, 0, 0}, {0xee, 0xee}} {
-		cconn := transport.VerifNewTCPConnFromReader(context.Background(), &segReader{data: bad}, io.Discard)
+		cconn := segConn(context.Background(), &segReader{data: bad})
 		var err error
 		pp, pm, _ := vr.Try(func() { _, err = mode.Detect(cconn) })
 		run.Eval(fmt.Sprintf("detect %x", bad), true)
@@ -323,7 +331,7 @@ func main() {
 			stream := frame(v, body) // the transport's mode is created by New (announcement goes out, not in)
 			for cut := 0; cut <= len(stream); cut++ {
 				id := fmt.Sprintf("errframe %s code=%d cut=%d", variantName(v), code, cut)
-				conn := transport.VerifNewTCPConnFromReader(context.Background(), &segReader{data: stream, cuts: []int{max(cut, 1), len(stream)}}, io.Discard)
+				conn := segConn(context.Background(), &segReader{data: stream, cuts: []int{max(cut, 1), len(stream)}})
 				var err error
 				var msg messages.Common
 				p, pm, fr := vr.Try(func() {
@@ -354,6 +362,7 @@ func main() {
 			}
 		}
 	}
+	c.loopback()
 	run.Sample(map[string]any{"mode": "abridged", "messages": []int{4, 0, 4}, "cuts": []int{1, 1, 3, 2, 1, 4}})
 	run.Sample(map[string]any{"mode": "intermediate", "messages": []int{508}, "cuts": []int{3, 513}})
 	freepass.Run(run, run.ID, freepass.Rounds(run))
@@ -494,4 +503,330 @@ func lenClass(seq []int) string {
 		}
 	}
 	return strings.Join(s, ",")
+}
+
+// ---- delivery over a real loopback TCP connection (transport.NewTCP, the constructor the client uses) ----------
+
+// segConn gives the mode a connection whose inbound stream arrives in the chunks of r: through the real tcpConn
+// read path over an in-memory reader when tcpConn still has the shape the harness export knows, else through
+// transport.NewTCP and a loopback socket into which a feeder writes chunk by chunk (paced; what the kernel
+// coalesces is not owned, the oracle only looks at the messages).
+func segConn(ctx context.Context, r *segReader) transport.Conn {
+	if transport.VerifTCPConnOverReader {
+		return transport.VerifNewTCPConnFromReader(ctx, r, io.Discard)
+	}
+	var chunks [][]byte
+	data := r.data
+	for _, n := range r.cuts {
+		if n > len(data) {
+			n = len(data)
+		}
+		if n > 0 {
+			chunks = append(chunks, data[:n])
+			data = data[n:]
+		}
+	}
+	if len(data) > 0 {
+		chunks = append(chunks, data)
+	}
+	conn, _ := loopConn(ctx, chunks, nil, 30*time.Second, nil)
+	return conn
+}
+
+// loopConn dials a fresh loopback listener through transport.NewTCP; the peer writes the chunks (gap[i] before chunk
+// i, 300us by default), then closes its side; what the client wrote is handed to sink when the connection ends.
+func loopConn(ctx context.Context, chunks [][]byte, gaps []time.Duration, timeout time.Duration, sink func([]byte)) (transport.Conn, error) {
+	ln, err := net.Listen("tcp", "127.0.0.1:0")
+	if err != nil {
+		vr.HarnessError("loopback listener: %v", err)
+	}
+	go func() {
+		defer ln.Close()
+		pc, err := ln.Accept()
+		if err != nil {
+			return
+		}
+		if tc, ok := pc.(*net.TCPConn); ok {
+			tc.SetNoDelay(true)
+		}
+		var got []byte
+		done := make(chan struct{})
+		go func() {
+			defer close(done)
+			got, _ = io.ReadAll(pc)
+		}()
+		for i, ch := range chunks {
+			g := 300 * time.Microsecond
+			if i < len(gaps) && gaps[i] > 0 {
+				g = gaps[i]
+			}
+			if i > 0 {
+				time.Sleep(g)
+			}
+			if _, err := pc.Write(ch); err != nil {
+				break
+			}
+		}
+		if tc, ok := pc.(*net.TCPConn); ok {
+			tc.CloseWrite()
+		}
+		if sink != nil {
+			<-done
+			sink(got)
+		}
+		pc.Close()
+	}()
+	return transport.NewTCP(transport.TCPConnConfig{Ctx: ctx, Host: ln.Addr().String(), Timeout: timeout})
+}
+
+func (c ctx) loopback() {
+	type lcase struct {
+		id     string
+		class  string
+		v      mode.Variant
+		seq    []int
+		cuts   []int // absolute positions in the stream
+		gaps   map[int]time.Duration
+		writes []int // messages the client writes meanwhile
+	}
+	var cases []lcase
+	long := 8 * time.Second // longer than any internal polling interval can reasonably be, shorter than the read timeout below
+	const timeout = 12 * time.Second
+	for _, v := range []mode.Variant{mode.Abridged, mode.Intermediate} {
+		hdr := len(frame(v, payload(512, 0))) - 512
+		an := len(announce(v))
+		for _, seq := range [][]int{{4}, {508}, {512, 0, 1024}, {65536}, {4, 1 << 20, 4}} {
+			total := an
+			var bounds []int
+			for _, n := range seq {
+				bounds = append(bounds, total)
+				total += len(frame(v, make([]byte, n)))
+			}
+			name := fmt.Sprintf("loopback %s seq=%v", variantName(v), seq)
+			cases = append(cases, lcase{id: name + " all-at-once", class: "all-at-once", v: v, seq: seq, writes: []int{4, 508, 1024}})
+			if total <= 2000 {
+				var ones []int
+				for i := 1; i < total; i++ {
+					ones = append(ones, i)
+				}
+				cases = append(cases, lcase{id: name + " byte-at-a-time", class: "byte-at-a-time", v: v, seq: seq, cuts: ones})
+			}
+			for _, b := range bounds {
+				for d := -2; d <= hdr+2; d++ {
+					if b+d > 0 && b+d < total {
+						cases = append(cases, lcase{id: fmt.Sprintf("%s cut=%d", name, b+d), class: "single-cut", v: v, seq: seq, cuts: []int{b + d}})
+					}
+				}
+			}
+			cases = append(cases, lcase{id: name + " pieces-of-256", class: "pieces", v: v, seq: seq, cuts: func() []int {
+				var cs []int
+				for i := 256; i < total && len(cs) < 600; i += 256 {
+					cs = append(cs, i)
+				}
+				return cs
+			}()})
+		}
+		// a pause inside a frame: in the header, right behind it, in the middle of the payload, at a frame boundary
+		for _, at := range []struct {
+			name string
+			pos  int
+		}{{"inside-header", an + hdr/2}, {"behind-header", an + hdr}, {"inside-payload", an + hdr + 300}, {"frame-boundary", an + hdr + 512}, {"inside-second-payload", an + hdr + 512 + hdr + 100}} {
+			if at.pos == an {
+				at.pos = an + 1
+			}
+			cases = append(cases, lcase{id: fmt.Sprintf("loopback %s seq=[512 508 4] pause-of-%v %s", variantName(v), long, at.name), class: "long-pause|" + at.name, v: v, seq: []int{512, 508, 4},
+				cuts: []int{at.pos}, gaps: map[int]time.Duration{1: long}})
+		}
+	}
+	var mu sync.Mutex
+	var wg sync.WaitGroup
+	sem := make(chan struct{}, 64)
+	notJudged := 0
+	for _, lc := range cases {
+		lc := lc
+		wg.Add(1)
+		sem <- struct{}{}
+		go func() {
+			defer wg.Done()
+			defer func() { <-sem }()
+			v := lc.v
+			stream := announce(v)
+			var want [][]byte
+			for i, n := range lc.seq {
+				m := payload(n, i)
+				want = append(want, m)
+				stream = append(stream, frame(v, m)...)
+			}
+			var chunks [][]byte
+			var gaps []time.Duration
+			last := 0
+			for _, cpos := range append(append([]int{}, lc.cuts...), len(stream)) {
+				if cpos <= last || cpos > len(stream) {
+					continue
+				}
+				chunks = append(chunks, stream[last:cpos])
+				gaps = append(gaps, lc.gaps[len(chunks)-1])
+				last = cpos
+			}
+			var wrote []byte
+			sunk := make(chan struct{})
+			cx, cancel := context.WithCancel(context.Background())
+			defer cancel()
+			conn, err := loopConn(cx, chunks, gaps, timeout, func(b []byte) { wrote = b; close(sunk) })
+			rep := map[string]any{"mode": variantName(v), "messages": lc.seq, "cuts": lc.cuts[:min(len(lc.cuts), 16)], "over": "loopback TCP"}
+			if err != nil {
+				vr.HarnessError("loopback dial: %v", err)
+			}
+			var msgs [][]byte
+			var rerr error
+			wantW := []byte{}
+			start := time.Now()
+			p, pm, fr := vr.Try(func() {
+				var m mode.Mode
+				m, rerr = mode.Detect(conn)
+				if rerr != nil {
+					return
+				}
+				for i, n := range lc.writes {
+					msg := payload(n, 50+i)
+					wantW = append(wantW, frame(v, msg)...)
+					if werr := m.WriteMsg(msg); werr != nil {
+						rerr = werr
+						return
+					}
+				}
+				for i := 0; i < len(want)+1; i++ {
+					var b []byte
+					b, rerr = m.ReadMsg()
+					if rerr != nil {
+						return
+					}
+					msgs = append(msgs, b)
+				}
+			})
+			conn.Close()
+			<-sunk
+			mu.Lock()
+			defer mu.Unlock()
+			c.run.Eval(lc.id, true)
+			if rerr != nil && rerr != io.EOF && (strings.Contains(rerr.Error(), "timeout") || strings.Contains(rerr.Error(), "reconnect")) && time.Since(start) >= timeout {
+				notJudged++ // the machine stalled for longer than the read timeout: nothing to judge
+				return
+			}
+			switch {
+			case p:
+				c.run.Violation("loopback|panic|"+variantName(v)+"|"+lc.class+"|"+vr.MsgClass(pm)+"|"+fr, lc.id+": "+pm, rep)
+				return
+			case len(msgs) != len(want):
+				c.run.Violation("loopback|message-count|"+variantName(v)+"|"+lc.class, fmt.Sprintf("%s: read %d messages (then %v), %d were sent", lc.id, len(msgs), rerr, len(want)), rep)
+				return
+			}
+			for i := range want {
+				if !bytes.Equal(msgs[i], want[i]) {
+					c.run.Violation("loopback|message-differs|"+variantName(v)+"|"+lc.class, fmt.Sprintf("%s: message %d differs (got %d bytes, want %d)", lc.id, i, len(msgs[i]), len(want[i])), rep)
+					return
+				}
+			}
+			if rerr != io.EOF {
+				c.run.Violation("loopback|end-of-stream-not-eof|"+variantName(v)+"|"+lc.class, fmt.Sprintf("%s: after the last frame ReadMsg returned %v, want io.EOF", lc.id, rerr), rep)
+			}
+			if len(lc.writes) > 0 && !bytes.Equal(wrote, wantW) {
+				c.run.Violation("loopback|written-bytes-differ|"+variantName(v), fmt.Sprintf("%s: the peer received %d bytes, the format defines %d", lc.id, len(wrote), len(wantW)), rep)
+			}
+		}()
+	}
+	wg.Wait()
+	c.run.Set("loopback_tcp_cases", len(cases))
+	c.run.Set("loopback_tcp_cases_not_judged_read_timeout_reached", notJudged)
+	c.run.Set("loopback_tcp_pause_inside_a_frame", long.String())
+}
+
+// failConn: a connection on which chosen writes fail as a whole (nothing reaches the wire).
+type failConn struct {
+	w     bytes.Buffer
+	fail  map[int]bool
+	count int
+}
+
+func (f *failConn) Read(p []byte) (int, error) { return 0, io.EOF }
+func (f *failConn) Write(p []byte) (int, error) {
+	f.count++
+	if f.fail[f.count] {
+		return 0, fmt.Errorf("write: broken pipe (injected)")
+	}
+	return f.w.Write(p)
+}
+
+// failedWrites: every history of <=3 WriteMsg calls over lengths {4,508,1024} in which every subset of the writes
+// of the connection fails as a whole; afterwards a second mode object over a fresh connection writes one message.
+// What reaches each wire must be the announcement and the frames of exactly the messages whose writes succeeded.
+func (c ctx) failedWrites(v mode.Variant) {
+	lens := []int{4, 508, 1024}
+	var seqs [][]int
+	for _, a := range lens {
+		seqs = append(seqs, []int{a})
+		for _, b := range lens {
+			seqs = append(seqs, []int{a, b})
+			for _, d := range lens {
+				seqs = append(seqs, []int{a, b, d})
+			}
+		}
+	}
+	for _, seq := range seqs {
+		// probe how many conn.Write calls a WriteMsg makes (1 or 2) on a healthy connection, then fail each subset
+		for mask := 1; mask < 1<<(2*len(seq)+1); mask++ {
+			fc := &failConn{fail: map[int]bool{}}
+			for i := 0; i < 2*len(seq)+1; i++ {
+				if mask&(1<<i) != 0 {
+					fc.fail[i+1] = true
+				}
+			}
+			id := fmt.Sprintf("failed-writes %s %v fail-mask=%b", variantName(v), seq, mask)
+			rep := map[string]any{"mode": variantName(v), "lengths": seq, "failing_write_calls": fmt.Sprintf("%b", mask)}
+			var other bytes.Buffer
+			bad := ""
+			anyFailed := false
+			p, pm, fr := vr.Try(func() {
+				m, err := mode.New(v, fc)
+				if err != nil {
+					anyFailed = true // the announcement could not be written: nothing more is sent on that connection
+				}
+				for i, n := range seq {
+					if m == nil {
+						break
+					}
+					before := fc.w.Len()
+					err := m.WriteMsg(payload(n, i))
+					if err != nil {
+						anyFailed = true
+						continue
+					}
+					if got, want := fc.w.Bytes()[before:], frame(v, payload(n, i)); !bytes.Equal(got, want) {
+						bad = fmt.Sprintf("message %d (%d bytes) was reported written, but %d bytes went out where the format defines %d", i, n, len(got), len(want))
+						return
+					}
+				}
+				m2, err := mode.New(v, &other)
+				if err != nil {
+					bad = "second connection: " + err.Error()
+					return
+				}
+				if err := m2.WriteMsg(payload(508, 9)); err != nil {
+					bad = "second connection: " + err.Error()
+				}
+			})
+			if !anyFailed && !p && bad == "" {
+				continue // the mask named write calls that never happened
+			}
+			c.run.Eval(id, true)
+			switch {
+			case p:
+				c.run.Violation("failed-writes|panic|"+variantName(v)+"|"+vr.MsgClass(pm)+"|"+fr, id+": "+pm, rep)
+			case bad != "":
+				c.run.Violation("failed-writes|wrong-bytes-after-a-failed-write|"+variantName(v), id+": "+bad, rep)
+			case !bytes.Equal(other.Bytes(), append(announce(v), frame(v, payload(508, 9))...)):
+				c.run.Violation("failed-writes|another-connection-disturbed|"+variantName(v), id+": a fresh connection of the process wrote bytes that differ from the reference framing after writes failed on another one", rep)
+			}
+		}
+	}
 }
